@@ -46,6 +46,8 @@ M = [
  ("c11-side-key-both-colours", "src/zobrist.rs", "        if board.active_color == Color::White {\n            hash ^= self.white_to_move_key;\n        }", "        hash ^= self.white_to_move_key;", ["C11"]),
  ("c11-castle-keys-shared", "src/zobrist.rs", "                hash ^= self.castling_right_keys[color.index()][1];", "                hash ^= self.castling_right_keys[color.index()][0];", ["C11"]),
  ("c11-ep-key-by-file", "src/zobrist.rs", "            hash ^= self.en_passant_target_key[square as usize];", "            hash ^= self.en_passant_target_key[(square % 8) as usize];", ["C11"]),
+ ("c11-ep-e3-key-shared-with-a-piece-square-key", "src/zobrist.rs", "            en_passant_target_key[square as usize] = rng.gen();", "            en_passant_target_key[square as usize] = if square == 20 { table_keys[0][2][45] } else { rng.gen() };", ["C11"]),
+ ("c11-two-piece-square-keys-shared", "src/zobrist.rs", "        for square in 0..SQUARES {\n            en_passant_target_key", "        table_keys[1][4][9] = table_keys[0][1][50];\n        for square in 0..SQUARES {\n            en_passant_target_key", ["C11"]),
  ("c11-counters-mixed-in", "src/zobrist.rs", "        // Hash active color\n", "        hash ^= board.halfmove_clock as u64;\n        // Hash active color\n", ["C11","C13"]),
  ("c12-colour-swap", "src/uci.rs", "            Color::White => (wtime, winc),\n            Color::Black => (btime, binc),", "            Color::White => (btime, binc),\n            Color::Black => (wtime, winc),", ["C12"]),
  ("c12-cap-removed", "src/uci.rs", "(base_time + increment).min(time_left / 2)", "(base_time + increment)", ["C12"]),
